@@ -38,6 +38,9 @@ pub enum Pattern {
     /// like `Fixed`, but the consumer keeps calling `read` (up to 6 more times) after an error:
     /// what is released afterwards counts, and a 0-byte read afterwards counts as a clean end
     PollOn(usize),
+    /// like `Fixed`, with a zero-length `read(&mut [])` before every real read (a legal call that
+    /// returns 0 without meaning end of data)
+    ZeroMix(usize),
 }
 
 /// drain `r`; returns (bytes released, clean end?)
@@ -51,6 +54,20 @@ pub fn consume<R: Read + BufRead>(mut r: R, p: Pattern) -> (Vec<u8>, bool) {
         Pattern::Fixed(n) => {
             let mut buf = vec![0u8; n.max(1)];
             loop {
+                match r.read(&mut buf) {
+                    Ok(0) => return (out, true),
+                    Ok(k) => out.extend_from_slice(&buf[..k]),
+                    Err(_) => return (out, false),
+                }
+            }
+        }
+        Pattern::ZeroMix(n) => {
+            let mut buf = vec![0u8; n.max(1)];
+            loop {
+                match r.read(&mut []) {
+                    Ok(_) => {}
+                    Err(_) => return (out, false),
+                }
                 match r.read(&mut buf) {
                     Ok(0) => return (out, true),
                     Ok(k) => out.extend_from_slice(&buf[..k]),
@@ -216,7 +233,7 @@ fn v2_case(ctx: &mut Ctx, p: &V2Params, honest: &[u8], pt: &[u8], ct: &[u8], wha
 fn run_v2(ctx: &mut Ctx) {
     let modes = [AeadAlgorithm::Eax, AeadAlgorithm::Ocb, AeadAlgorithm::Gcm];
     let syms = [SymmetricKeyAlgorithm::AES128, SymmetricKeyAlgorithm::AES256, SymmetricKeyAlgorithm::AES192];
-    let pats = [Pattern::ReadToEnd, Pattern::Fixed(1), Pattern::Fixed(7), Pattern::Fixed(64), Pattern::BufRead(3), Pattern::BufRead(1000), Pattern::PollOn(64), Pattern::PollOn(5)];
+    let pats = [Pattern::ReadToEnd, Pattern::Fixed(1), Pattern::Fixed(7), Pattern::Fixed(64), Pattern::BufRead(3), Pattern::BufRead(1000), Pattern::PollOn(64), Pattern::PollOn(5), Pattern::ZeroMix(33)];
     let mut rng = ChaCha8Rng::seed_from_u64(ctx.seed ^ 0xC03);
     let cs_octets: &[u8] = if ctx.thorough() { &[0, 1, 2] } else { &[0, 1] };
     let mut combo = 0usize;
@@ -423,7 +440,7 @@ fn v1_case(ctx: &mut Ctx, sym: SymmetricKeyAlgorithm, key: &[u8], pt: &[u8], hon
 
 fn run_v1(ctx: &mut Ctx) {
     let syms = [SymmetricKeyAlgorithm::AES128, SymmetricKeyAlgorithm::CAST5, SymmetricKeyAlgorithm::AES256];
-    let pats = [Pattern::ReadToEnd, Pattern::Fixed(1), Pattern::Fixed(64), Pattern::BufRead(5), Pattern::Fixed(8192), Pattern::PollOn(64), Pattern::PollOn(8192)];
+    let pats = [Pattern::ReadToEnd, Pattern::Fixed(1), Pattern::Fixed(64), Pattern::BufRead(5), Pattern::Fixed(8192), Pattern::PollOn(64), Pattern::PollOn(8192), Pattern::ZeroMix(100)];
     let mut rng = ChaCha8Rng::seed_from_u64(ctx.seed ^ 0xC031);
     let small: Vec<usize> = vec![0, 1, 2, 21, 22, 23, 40, 100];
     for (i, &n) in small.iter().enumerate() {
@@ -502,6 +519,94 @@ fn message_decrypt(msg: &[u8], sk: PlainSessionKey) -> (Vec<u8>, bool) {
         (out, ok)
     });
     r.unwrap_or((b"PANIC".to_vec(), false))
+}
+
+fn message_decrypt_pat(msg: &[u8], sk: PlainSessionKey, pat: Pattern) -> (Vec<u8>, bool) {
+    let r = guarded(|| {
+        let Ok((m, _)) = Message::from_reader(msg) else { return (vec![], false) };
+        let Ok(d) = m.decrypt_with_session_key(sk) else { return (vec![], false) };
+        consume(d, pat)
+    });
+    r.unwrap_or((b"PANIC".to_vec(), false))
+}
+
+/// containers whose plaintext is a literal packet FOLLOWED by other packets the reader skips
+/// (RFC 9580 padding packets, marker packets): the part of the container behind the literal data
+/// is covered by the same integrity protection, so a change there must fail the read as well
+fn run_message_tail(ctx: &mut Ctx) {
+    use pgp::packet::PacketTrait;
+    let mut rng = ChaCha8Rng::seed_from_u64(ctx.seed ^ 0xC033);
+    let pats = [Pattern::ReadToEnd, Pattern::Fixed(7), Pattern::BufRead(64), Pattern::PollOn(64), Pattern::ZeroMix(9)];
+    let mut case = 0usize;
+    for &n in &[0usize, 5, 70] {
+        for tail in [vec![(21u8, 0usize)], vec![(21, 10)], vec![(21, 300)], vec![(10, 3), (21, 150)], vec![(21, 70), (21, 70)]] {
+            for v2 in [true, false] {
+                case += 1;
+                let data = gen::random_bytes(&mut rng, n);
+                let mut lit_body = vec![b'b', 0, 0, 0, 0, 0];
+                lit_body.extend_from_slice(&data);
+                let Some(mut inner) = crate::frame::frame_fixed(true, 11, if lit_body.len() < 192 { 1 } else { 2 }, &lit_body) else { continue };
+                for (tag, len) in &tail {
+                    let body = if *tag == 10 { b"PGP".to_vec() } else { gen::random_bytes(&mut rng, *len) };
+                    let Some(p) = crate::frame::frame_fixed(true, *tag, if body.len() < 192 { 1 } else { 2 }, &body) else { continue };
+                    inner.extend_from_slice(&p);
+                }
+                let key = gen::random_bytes(&mut rng, 16);
+                let aead = [AeadAlgorithm::Ocb, AeadAlgorithm::Gcm, AeadAlgorithm::Eax][case % 3];
+                let built = guarded(|| {
+                    let pkt = if v2 {
+                        SymEncryptedProtectedData::encrypt_seipdv2(&mut rng, SymmetricKeyAlgorithm::AES128, aead, ChunkSize::C64B, &key, &inner).ok()?
+                    } else {
+                        SymEncryptedProtectedData::encrypt_seipdv1(&mut rng, SymmetricKeyAlgorithm::AES128, &key, &inner).ok()?
+                    };
+                    let mut out = Vec::new();
+                    pkt.to_writer_with_header(&mut out).ok()?;
+                    Some(out)
+                });
+                let Ok(Some(msg)) = built else { continue };
+                let sk = || if v2 { PlainSessionKey::V6 { key: key.clone().into() } } else { PlainSessionKey::V3_4 { sym_alg: SymmetricKeyAlgorithm::AES128, key: key.clone().into() } };
+                let site = if v2 { "Message reader, SEIPDv2 container with packets after the literal data" } else { "Message reader, SEIPDv1 container with packets after the literal data" };
+                let shape = format!("n={n} tail={tail:?}");
+                let r0 = message_decrypt_pat(&msg, sk(), Pattern::ReadToEnd);
+                if !(r0.1 && r0.0 == data) {
+                    // (a reader that refuses this legal shape is not this property's subject)
+                    ctx.stat("message_tail:unmodified_refused");
+                    continue;
+                }
+                ctx.stat("message_tail:unmodified_ok");
+                let hdr = msg.len() - crate::props::c17::real_deframe(&msg).1.map(|(b, _)| b.len()).unwrap_or(0);
+                // positions: every octet of the last 120 (the tail chunks, their tags, the final tag / MDC),
+                // a stride over the rest
+                let mut positions: Vec<usize> = (hdr..msg.len()).step_by(if ctx.thorough() { 1 } else { 5 }).collect();
+                positions.extend(msg.len().saturating_sub(120)..msg.len());
+                positions.sort_unstable();
+                positions.dedup();
+                for (pi, &j) in positions.iter().enumerate() {
+                    let mut m = msg.clone();
+                    m[j] ^= 1 << rng.gen_range(0..8);
+                    let pat = pats[pi % pats.len()];
+                    let r = message_decrypt_pat(&m, sk(), pat);
+                    ctx.oracle("modified_never_clean_eof", site, &format!("{shape} pat={pat:?} flip@{j} msg={}", hx(&m)), !r.1, &show(&r));
+                    ctx.stat("message_tail:bitflip");
+                }
+                // truncation of the container body (re-framed, so that the packet itself is well formed)
+                if let (_, Some((body, _))) = crate::props::c17::real_deframe(&msg) {
+                    let cuts: Vec<usize> = if v2 { vec![16, 17, 32, 80, 96, 160] } else { vec![1, 2, 20, 22, 23] };
+                    for (ci, cut) in cuts.into_iter().enumerate() {
+                        if cut >= body.len() {
+                            continue;
+                        }
+                        let b = &body[..body.len() - cut];
+                        let Some(m) = crate::frame::frame_fixed(true, 18, if b.len() < 192 { 1 } else if b.len() < 8384 { 2 } else { 5 }, b) else { continue };
+                        let pat = pats[ci % pats.len()];
+                        let r = message_decrypt_pat(&m, sk(), pat);
+                        ctx.oracle("modified_never_clean_eof", site, &format!("{shape} pat={pat:?} cut{cut} msg={}", hx(&m)), !r.1, &show(&r));
+                        ctx.stat("message_tail:truncate");
+                    }
+                }
+            }
+        }
+    }
 }
 
 fn run_message(ctx: &mut Ctx) {
@@ -597,6 +702,7 @@ pub fn run(ctx: &mut Ctx) {
         run_v2(ctx);
         run_v1(ctx);
         run_message(ctx);
+        run_message_tail(ctx);
     }
     ctx.seed = base;
 }
